@@ -19,16 +19,16 @@ ASSUMPTIONS = [
     "StoSOO and StroquOOL read the time argument by design and are not part of this property",
     "rewards are open-loop sequences so that both runs see the same rewards",
 ]
-FLOOR = {"points_compared": {"quick": 60000, "thorough": 480000},
-         "label_variants_run": {"quick": 350, "thorough": 2800},
-         "query_variants_run": {"quick": 200, "thorough": 1600}}
+FLOOR = {"points_compared": {"quick": 120000, "thorough": 480000},
+         "label_variants_run": {"quick": 700, "thorough": 2800},
+         "query_variants_run": {"quick": 400, "thorough": 1600}}
 WALL = {"quick": 1200, "thorough": 4 * 3600}
 LABELS = [{"kind": "offset", "t0": 0}, {"kind": "offset", "t0": 17}, {"kind": "offset", "t0": 10 ** 6}, {"kind": "double"},
           {"kind": "random", "seed": 1}]
 
 
 def gen_cases(rng, tier, count=None):
-    count = count or (1200 if tier == "quick" else 20000)
+    count = count or (2400 if tier == "quick" else 20000)
     out = []
     for i in range(count):
         if i % 3 == 2:
